@@ -76,19 +76,14 @@ def pPairs : Nat → Toks → List (String × String) × Toks
 
 def sha := SV.Sha1.sha1
 
-/-- `hashModule sha P n` with the cycle test (the same for every module of `P`) hoisted out -/
-def showHash (P : Modules) (cyc : Bool) (n : Bytes) : String :=
-  let c := P.modules.length
-  if cyc then "E:" ++ Err.cycle.toString
-  else match checkN P c c n with
-    | some e => "E:" ++ e.toString
-    | none => hex (SV.Hash.hash sha P n)
+def showHash (P : Modules) (n : Bytes) : String :=
+  match hashModule sha P n with
+  | .ok h => hex h
+  | .error e => "E:" ++ e.toString
 
 /-- the hash (or error) of every module, in module-list order -/
 def showAll (P : Modules) : String :=
-  if P.modules.isEmpty then "none" else
-  let cyc := cyclic P.modules P.modules.length
-  " ".intercalate (P.modules.map fun m => showHash P cyc m.name)
+  if P.modules.isEmpty then "none" else " ".intercalate (P.modules.map fun m => showHash P m.name)
 
 def tableFn (tbl : List (Bytes × Bytes)) (n : Bytes) : Bytes :=
   match tbl.find? (·.1 = n) with
